@@ -414,6 +414,7 @@ class FakeGit:
         self.calls = 0
         self._anc_cache = {}
         self._nested = None
+        self.log = None
 
     def _by_hash(self, h):
         for name in self.state.get("commits", {}):
@@ -476,6 +477,8 @@ class FakeGit:
                     self._nested = FakeGit(nested["state"])
                 target = self._nested
         rc, out = target._exec(argv[1:])
+        if self.log is not None:
+            self.log.append((list(argv), rc, out))
         if s is not None and is_main():
             s.after_call()
         o = out if text else out.encode()
@@ -494,10 +497,36 @@ class FakeGit:
             if c is None:
                 return 128, a[1] + "\n"
             return 0, commit_hash(c) + "\n"
-        if a[:2] == ["diff-index", "--quiet"]:
+        dirty = st.get("dirty")
+        staged = dirty == "staged"
+        unstaged = bool(dirty) and not staged
+        if a[0] == "diff-index":
+            opts = [x for x in a[1:] if x.startswith("-")]
+            if [o for o in opts if o not in ("--quiet", "--cached", "--exit-code")]:
+                raise SimUnsupported("fake git: %r is not modelled" % (a,))
             if st.get("head") is None:
                 return 128, ""
-            return (1 if st.get("dirty") else 0), ""
+            differs = staged if "--cached" in opts else (staged or unstaged)
+            return (1 if differs else 0), ("" if "--quiet" in opts else (":100644 100644 0 0 M\tf\n" if differs else ""))
+        if a[0] == "diff":
+            opts = [x for x in a[1:] if x.startswith("-")]
+            revs = [x for x in a[1:] if not x.startswith("-")]
+            if [o for o in opts if o not in ("--quiet", "--cached", "--staged", "--exit-code")] or [x for x in revs if x != "HEAD"]:
+                raise SimUnsupported("fake git: %r is not modelled" % (a,))
+            if ("--cached" in opts or "--staged" in opts):
+                differs = staged                      # index vs HEAD
+            elif revs:
+                if st.get("head") is None:
+                    return 128, ""
+                differs = staged or unstaged          # work tree vs HEAD
+            else:
+                differs = unstaged                    # work tree vs index
+            quiet = "--quiet" in opts or "--exit-code" in opts
+            return (1 if differs and quiet else 0), ("" if "--quiet" in opts or not differs else "diff --git a/f b/f\n")
+        if a[0] == "status":
+            if [x for x in a[1:] if x not in ("--porcelain", "-s", "--short", "-uno", "--untracked-files=no")]:
+                raise SimUnsupported("fake git: %r is not modelled" % (a,))
+            return 0, ("M  f\n" if staged else (" M f\n" if unstaged else ""))
         if a[:2] == ["merge-base", "--is-ancestor"]:
             anc = self._by_hash(a[2]) or self.resolve(a[2])
             desc = self._by_hash(a[3]) or self.resolve(a[3])
@@ -944,7 +973,7 @@ def _fs_logger(name, real, path_arg):
     return shim
 
 
-class _FakeDatetimeMod:
+class _FakeDatetimeMod_unused:
     """stands in for the `datetime` module inside conductor.cli.archive"""
 
     class datetime:
@@ -998,14 +1027,51 @@ def restore_pristine_state():
             pass
 
 
+class _SimDateTimeMeta(type(__import__("datetime").datetime)):
+    pass
+
+
+def _make_sim_datetime():
+    import datetime as _dt
+
+    real = _dt.datetime
+
+    class SimDateTime(real):
+        """datetime.datetime whose now()/utcnow()/today() read the simulated clock inside an invocation"""
+
+        @classmethod
+        def now(cls, tz=None):
+            s = CUR
+            if s is None:
+                return real.now(tz)
+            t = real.fromtimestamp(s.clock, _dt.timezone.utc)
+            return t.astimezone(tz) if tz is not None else t.replace(tzinfo=None)
+
+        @classmethod
+        def utcnow(cls):
+            return cls.now()
+
+        @classmethod
+        def today(cls):
+            return cls.now()
+
+    SimDateTime.__name__ = "datetime"
+    SimDateTime.__qualname__ = "datetime"
+    return SimDateTime
+
+
 def install():
+    """Seams are put in place BEFORE conductor is imported, so that `from time import time`,
+    `from os import waitpid`, `from concurrent.futures import ThreadPoolExecutor`,
+    `from datetime import datetime` ... inside conductor bind the simulated versions just as
+    `import time; time.time()` does."""
     global _INSTALLED
     if _INSTALLED:
         return
-    import conductor.__main__  # noqa: F401  (imports every cli module)
-    import conductor.utils.git as cgit
-    import conductor.utils.tee as ctee
-    import conductor.cli.archive as carch
+    if any(n == "conductor" or n.startswith("conductor.") for n in sys.modules):
+        raise RuntimeError("conductor was imported before the simulator's seams were installed")
+    import concurrent.futures.thread as _cft
+    import datetime as _dt
 
     subprocess._fork_exec = _sh_fork_exec
     os.waitpid = _sh_waitpid
@@ -1027,30 +1093,9 @@ def install():
     os.mkdir = _fs_logger("mkdir", REAL.mkdir, 0)
     os.symlink = _fs_logger("symlink", REAL.symlink, 1)
     os.unlink = _fs_logger("unlink", REAL.unlink, 0)
-
-    ctee.ThreadPoolExecutor = SimExecutor
-    carch.datetime = _FakeDatetimeMod()
-
-    class _GitSubprocess:
-        DEVNULL = subprocess.DEVNULL
-        PIPE = subprocess.PIPE
-        STDOUT = subprocess.STDOUT
-        CompletedProcess = subprocess.CompletedProcess
-
-        @staticmethod
-        def run(argv, **kw):
-            s = CUR
-            if s is None or s.git is None or s.knobs.get("real_git"):
-                return REAL.subprocess_run(argv, **kw)
-            return s.git.run(argv, **kw)
-
-    cgit.subprocess = _GitSubprocess
-
-    # the same seams at their global names, in case a module binds them differently
-    import concurrent.futures.thread as _cft
-
     concurrent.futures.ThreadPoolExecutor = _ExecutorSwitch
     _cft.ThreadPoolExecutor = _ExecutorSwitch
+    _dt.datetime = _make_sim_datetime()
 
     def _global_run(argv, *a, **kw):
         s = CUR
@@ -1063,6 +1108,9 @@ def install():
         return REAL.subprocess_run(argv, *a, **kw)
 
     subprocess.run = _global_run
+
+    import conductor.__main__  # noqa: F401  (imports every cli module)
+
     _record_pristine_state()
     _INSTALLED = True
 
@@ -1191,6 +1239,10 @@ class Sim:
         cmd = argv[2] if len(argv) > 2 else ""
         toks = cmd.split()
         task = toks[1] if len(toks) > 1 and toks[0] == "sim" else "?" + env.get("COND_NAME", "")
+        if task.startswith("@") and cwd is not None:
+            # an instance of a run_experiment_group (all instances share one run string)
+            rel = os.path.relpath(os.fsdecode(cwd), str(self.root))
+            task = "//%s:%s" % ("" if rel == "." else rel, env.get("COND_NAME", "?"))
         # per-invocation execution number of this task (0-based) decides the script
         execno = sum(1 for sp in self.spawns if sp["task"] == task) + \
             sum(1 for e in self.trace if e[0] == "launchfail" and e[1] == task)
@@ -1825,7 +1877,12 @@ def read_rows(root):
                 "select task_identifier, timestamp, git_commit_hash, has_uncommitted_changes "
                 "from version_index").fetchall()
         except sqlite3.OperationalError as ex:
-            return "BROKEN:" + str(ex)
+            try:
+                # format 1 (before the upgrade): no commit / dirty columns
+                rows = [(r[0], r[1], None, 0) for r in
+                        c.execute("select task_identifier, timestamp from version_index").fetchall()]
+            except sqlite3.OperationalError:
+                return "BROKEN:" + str(ex)
         return sorted((r[0], r[1], r[2], int(r[3])) for r in rows)
     finally:
         c.close()
